@@ -151,6 +151,7 @@ struct Space {
     visibilities: Vec<String>,
     payloads: Vec<(&'static str, String)>,
     radix: Radix,
+    thorough: bool,
 }
 
 struct Item {
@@ -170,7 +171,7 @@ impl Space {
         let visibilities = visibilities(thorough);
         let payloads = payloads(thorough);
         let radix = Radix::new(&[delegates.len() as u64, N_THRESHOLDS, versions.len() as u64, visibilities.len() as u64, payloads.len() as u64, UNKNOWN.len() as u64]);
-        Space { delegates, versions, visibilities, payloads, radix }
+        Space { delegates, versions, visibilities, payloads, radix, thorough }
     }
     fn item(&self, i: u64) -> Item {
         let d = self.radix.decode(i);
@@ -423,7 +424,7 @@ fn neighbours(doc: &Doc, wit: &Value, vs: &mut Vec<Violation>) -> (u32, u32) {
 fn check_json(space: &Space, i: u64) -> ItemOut {
     let it = space.item(i);
     let dl = &space.delegates[it.delegates];
-    let wit = json!({"kind": "json", "doc": it.text, "delegates": dl.name, "threshold": it.threshold_text});
+    let wit = json!({"kind": "json", "doc": it.text, "delegates": dl.name, "threshold": it.threshold_text, "thorough_space": space.thorough, "index": i});
     let bytes = it.text.as_bytes();
     let mut vs = vec![];
     let a = serde_json::from_slice::<Doc>(bytes).map_err(|e| err_label(&e));
@@ -474,7 +475,7 @@ fn check_json(space: &Space, i: u64) -> ItemOut {
         format!("accepted{}:{rt}:edits-verified={ok}/{}", if agree { "" } else { "(paths-disagree)" }, ok + rej)
     };
     for v in vs.iter_mut() {
-        v.cost = it.text.len() as u64;
+        v.cost = ((it.text.len() as u64) << 20) | (i & 0xfffff);
     }
     let class = if it.duplicate_of_other_item { 0 } else { mcx::fnv64(format!("json/{i}").as_bytes()) | 1 };
     let _ = it.payload;
@@ -582,18 +583,27 @@ fn main() {
                 }
             }
             _ => {
-                // find the item by its text in the thorough space (superset of quick)
+                // locate the item: by (space, index) when recorded, else by its text
                 let text = w["doc"].as_str().unwrap_or("").to_string();
-                let mut found = vec![];
-                for t in [false, true] {
+                let mut found = None;
+                if let (Some(t), Some(i)) = (w.get("thorough_space").and_then(Value::as_bool), w.get("index").and_then(Value::as_u64)) {
                     let sp = Space::new(t);
-                    if let Some(i) = (0..sp.radix.size()).find(|i| sp.item(*i).text == text) {
-                        found = check_json(&sp, i).violations;
-                        break;
+                    if i < sp.radix.size() && sp.item(i).text == text {
+                        found = Some(check_json(&sp, i).violations);
                     }
                 }
+                if found.is_none() {
+                    for t in [false, true] {
+                        let sp = Space::new(t);
+                        if let Some(i) = (0..sp.radix.size()).find(|i| sp.item(*i).text == text) {
+                            found = Some(check_json(&sp, i).violations);
+                            break;
+                        }
+                    }
+                }
+                let found = found.unwrap_or_else(|| mcx::report::machinery("replay: document text not found in the space"));
                 let edit = w.get("edit").and_then(Value::as_str);
-                found.into_iter().filter(|v| v.witness.get("edit").and_then(Value::as_str) == edit || edit.is_none()).collect()
+                found.into_iter().filter(|v| v.witness.get("edit").and_then(Value::as_str) == edit).collect()
             }
         };
         drop(tmp);
